@@ -14,10 +14,15 @@ TERMS = [
     ("K", "/[€肱]/", "[€肱]"), ("L", '"🟠"', "🟠"), ("M", "/[👋😊é]/", "[👋😊é]"),
     # terminal names of the form <NAME>_<k>: k is also a state number of NAME's automaton
     ("E_1", '"x"', "x"), ("E_2", '"c"', "c"), ("H_1", '"s"', "s"), ("H_2", '"x"', "x"), ("A_1", '"c"', "c"), ("B_0", '"x"', "x"),
+    # an automaton state that is only left through arcs back to earlier states (comment-like pattern)
+    ("N", "/x([^b]|b+[^by])*b+y/", "x((?=[\\t-\\r -~])[^b]|b+(?=[\\t-\\r -~])[^by])*b+y"),
+    # the same multi-byte character leaving different states of one terminal's automaton
+    ("O", '"été"', "été"), ("P", "/é(a|é)ü/", "é(a|é)ü"),
 ]
+EXTRA = {"N": ["xbaby", "xbbaby", "xabby", "xbay", "xbab", "xby"], "O": ["été", "ét", "éé", "é", "tété"], "P": ["éaü", "ééü", "éü", "éé"]}
 RELATED = {"E": ["E_1", "E_2"], "H": ["H_1", "H_2"], "A": ["A_1"], "B": ["B_0"]}
 # (negated classes are relative to the default character set, string.printable: the oracle pattern of I says so)
-ALPHA = list("abcsSé ü€ßx肱🟠👋😊")
+ALPHA = list("abcsSé ü€ßx肱🟠👋😊yt")
 
 
 def viol(ctx, sig, what, obj):
@@ -191,6 +196,10 @@ def run(ctx):
         cands = ["".join(x) for L in range(0, 5) for x in itertools.product(chars, repeat=L)]
         if len(cands) > 160:
             cands = cands[:60] + ctx.rng.sample(cands[60:], 100)
+        for nm in G["terms"]:   # longer candidates that reach the interesting states of some terminals
+            for e in EXTRA.get(nm, []):
+                if e not in cands:
+                    cands.append(e)
         bts = [list(c.encode("utf-8")) for c in cands]
         trunc = [b[:-1] for b in bts if len(b) > len(bytes(b).decode("utf-8", "ignore").encode("utf-8")) or (b and b[-1] >= 0x80)][:10]
         # byte strings obtained by exchanging bytes between the encodings of the multi-byte characters in play:
